@@ -91,6 +91,12 @@ def detect(patch, props, tier="quick"):
         print("patch does not apply to /repo:", out)
         return 2
     results = {}
+    # evidence files describe the unchanged tree: keep them out of reach of runs against a seeded change
+    saved = {}
+    for p in props:
+        ev = os.path.join(VERIF, "evidence", "%s.json" % p)
+        if os.path.exists(ev):
+            saved[ev] = open(ev).read()
     try:
         for p in props:
             env = dict(os.environ)
@@ -101,6 +107,9 @@ def detect(patch, props, tier="quick"):
     finally:
         sh(["git", "-C", "/repo", "checkout", "--", "."])
         sh(["git", "-C", "/repo", "clean", "-fdq", "src", "derive"])
+        for ev, txt in saved.items():
+            with open(ev, "w") as fh:
+                fh.write(txt)
     print(json.dumps(results, indent=1))
     return 0
 
